@@ -49,6 +49,7 @@ type quotaCfg struct {
 	win        int64 // ns
 	gh         int   // group-by header index, -1 = none
 	cc         int   // counter-value header index (fixed_window_custom_counter), -1 = fixed_window
+	wu         string // interval_unit to write the window with (`wu=`), "" = largest fitting unit
 	sp         int64 // spillover.max of the optional `spillover` block, 0 = no block
 	pct        int   // allocation_percentage child (max/win/gh/cc copied from the parent by the loader), -1 = none
 }
@@ -119,21 +120,30 @@ func parseQuota(w []string) (quotaCfg, bool) {
 			return quotaCfg{}, false
 		}
 	}
-	return quotaCfg{id: int(id), parent: int(par), max: mx, win: win, gh: int(gh), cc: int(cc), pct: -1, sp: sp}, true
+	wu, _ := proto.KV(w, "wu")
+	if _, known := unitNs[wu]; wu != "" && (!known || win%unitNs[wu] != 0) {
+		return quotaCfg{}, false
+	}
+	return quotaCfg{id: int(id), parent: int(par), max: mx, win: win, gh: int(gh), cc: int(cc), pct: -1, sp: sp, wu: wu}, true
 }
 
-func windowYAML(win int64) (int64, string) {
-	const s = int64(time.Second)
-	switch {
-	case win%(24*3600*s) == 0:
-		return win / (24 * 3600 * s), "day"
-	case win%(3600*s) == 0:
-		return win / (3600 * s), "hour"
-	case win%(60*s) == 0:
-		return win / (60 * s), "minute"
-	default:
-		return win / s, "second"
+var unitNs = map[string]int64{
+	"second": int64(time.Second), "minute": 60 * int64(time.Second), "hour": 3600 * int64(time.Second),
+	"day": 24 * 3600 * int64(time.Second), "month": 30 * 24 * 3600 * int64(time.Second),
+}
+
+// windowYAML: interval and interval_unit for a window of `win` ns.  `unit` (the `wu=` of the quota line) picks
+// the unit when the window is a whole number of them; otherwise the largest unit that divides the window.
+func windowYAML(win int64, unit string) (int64, string) {
+	if u, ok := unitNs[unit]; ok && win%u == 0 {
+		return win / u, unit
 	}
+	for _, name := range []string{"month", "day", "hour", "minute"} {
+		if win%unitNs[name] == 0 {
+			return win / unitNs[name], name
+		}
+	}
+	return win / int64(time.Second), "second"
 }
 
 // rootOf: the root quota of the tree a quota belongs to.
@@ -164,7 +174,7 @@ func quotaYAML(qs []quotaCfg) string {
 			fmt.Fprintf(&b, "    strategy:\n      allocation_percentage: %d\n", q.pct)
 			return
 		}
-		iv, unit := windowYAML(q.win)
+		iv, unit := windowYAML(q.win, q.wu)
 		kind := "fixed_window"
 		if q.cc >= 0 {
 			kind = "fixed_window_custom_counter"
